@@ -18,6 +18,97 @@ def table(names):
     return 'pub const TABLE: &[(&str, fn())] = &[\n' + ''.join('    ("%s", %s),\n' % (n, n) for n in names) + '];\n'
 
 
+SHIFT_FORMS = [
+ ('ri', 'dst_regW', 'src_imm_u8', 'WW_reg__COMMA__u_byte_num', '(0, f, 0), (0, d.R, 0), C, (0, s.imm as u8, 0)', 'no'),
+ ('rc', 'dst_regW', 'src_cl', 'WW_reg__COMMA__reg_cl', '(0, f, 0), (0, d.R, 0), C, (0, s.b, 0)', 'no'),
+ ('mi', 'opnd_mem', 'src_imm_u8', 'T_WW__memory_addr__COMMA__u_byte_num', '(0, f, 0), KK, (0, d.m, 0), C, (0, s.imm as u8, 0)', 'yes'),
+ ('mc', 'opnd_mem', 'src_cl', 'T_WW__memory_addr__COMMA__reg_cl', '(0, f, 0), KK, (0, d.m, 0), C, (0, s.b, 0)', 'yes'),
+ ('li', 'opnd_lab', 'src_imm_u8', 'WW_label__COMMA__u_byte_num', '(0, f, 0), (0, d.m, 0), C, (0, s.imm as u8, 0)', 'yes'),
+ ('lc', 'opnd_lab', 'src_cl', 'WW_label__COMMA__reg_cl', '(0, f, 0), (0, d.m, 0), C, (0, s.b, 0)', 'yes'),
+]
+
+
+def shifts(prop):
+    out, names = [], []
+    lab = prop.upper() + 'b'
+    for w in (8, 16):
+        ww = 'byte' if w == 8 else 'word'
+        for (k, mkd, mks, tail, args, probe) in SHIFT_FORMS:
+            sub = lambda x: x.replace('regW', 'reg%d' % w).replace('WW', ww).replace('KK', 'KB' if w == 8 else 'KW').replace('d.R', 'd.b' if w == 8 else 'd.w')
+            prod = 'p_shift_rotate__%s_shift_rotate__%s' % (ww, sub(tail))
+            h = '%sb_shift_%s%d' % (prop, k, w)
+            ntf = 'nt_%s_shift_rotate' % ww
+            NT = 'NT_%s_shift_rotate' % ww
+            call = '|vm: &mut VM, ctx: &mut Context, f, d: &Op, s: &Op| %s(CUR, vm, ctx, "", %s)' % (prod, sub(args))
+            out.append('binop%d!(%s, "%s.shift.%s%d", %s, %s_N, %s_TEXT, %s, %s, false, %s,\n    %s);'
+                       % (w, h, lab, k, w, ntf, NT, NT, sub(mkd), mks, probe, call))
+            names.append(h)
+            if probe == 'no':
+                out.append('frame_only!(%s_frame, "%s.shift.%s%d", %s, %s_N, %s, %s,\n    %s);' % (h, lab, k, w, ntf, NT, sub(mkd), mks, call))
+                names.append(h + '_frame')
+    return out, names
+
+
+def nots(prop):
+    out, names = [], []
+    for w in (8, 16):
+        ww = 'byte' if w == 8 else 'word'
+        for k, mk, tail, args in (('r', 'dst_reg%d' % w, '%s_reg' % ww, '(0, d.%s, 0)' % ('b' if w == 8 else 'w')),
+                                  ('m', 'opnd_mem', 'T_%s__memory_addr' % ww, '%s, (0, d.m, 0)' % ('KB' if w == 8 else 'KW')),
+                                  ('l', 'opnd_lab', '%s_label' % ww, '(0, d.m, 0)')):
+            h = '%sb_not_%s%d' % (prop, k, w)
+            out.append('notop!(%s, "C02b.not.%s%d", %d, %s,\n    |vm: &mut VM, ctx: &mut Context, d: &Op| p_not__T_not__%s(CUR, vm, ctx, "", (0, "not", 0), %s));'
+                       % (h, k, w, w, mk, tail, args))
+            names.append(h)
+    return out, names
+
+
+MOV_FORMS = [
+ # (name, width, dst builder, src builder, production tail, args, probe)
+ ('rr8', 8, 'dst_reg8', 'src_reg8', 'byte_reg__COMMA__byte_reg', '(0, d.b, 0), C, (0, s.b, 0)', 'no'),
+ ('rr16', 16, 'dst_reg16', 'src_reg16', 'word_reg__COMMA__word_reg', '(0, d.w, 0), C, (0, s.w, 0)', 'no'),
+ ('rm8', 8, 'dst_reg8', 'opnd_mem', 'byte_reg__COMMA__T_byte__memory_addr', '(0, d.b, 0), C, KB, (0, s.m, 0)', 'yes'),
+ ('rm16', 16, 'dst_reg16', 'opnd_mem', 'word_reg__COMMA__T_word__memory_addr', '(0, d.w, 0), C, KW, (0, s.m, 0)', 'yes'),
+ ('rl8', 8, 'dst_reg8', 'opnd_lab', 'byte_reg__COMMA__byte_label', '(0, d.b, 0), C, (0, s.m, 0)', 'yes'),
+ ('rl16', 16, 'dst_reg16', 'opnd_lab', 'word_reg__COMMA__word_label', '(0, d.w, 0), C, (0, s.m, 0)', 'yes'),
+ ('mr8', 8, 'opnd_mem', 'src_reg8', 'T_byte__memory_addr__COMMA__byte_reg', 'KB, (0, d.m, 0), C, (0, s.b, 0)', 'yes'),
+ ('mr16', 16, 'opnd_mem', 'src_reg16', 'T_word__memory_addr__COMMA__word_reg', 'KW, (0, d.m, 0), C, (0, s.w, 0)', 'yes'),
+ ('lr8', 8, 'opnd_lab', 'src_reg8', 'byte_label__COMMA__byte_reg', '(0, d.m, 0), C, (0, s.b, 0)', 'yes'),
+ ('lr16', 16, 'opnd_lab', 'src_reg16', 'word_label__COMMA__word_reg', '(0, d.m, 0), C, (0, s.w, 0)', 'yes'),
+ ('ri8', 8, 'dst_reg8', 'src_imm_s8', 'byte_reg__COMMA__s_byte_num', '(0, d.b, 0), C, (0, s.imm as u8 as i8, 0)', 'no'),
+ ('ri16', 16, 'dst_reg16', 'src_imm_s16', 'word_reg__COMMA__s_word_num', '(0, d.w, 0), C, (0, s.imm as i16, 0)', 'no'),
+ ('mi8', 8, 'opnd_mem', 'src_imm_s8', 'T_byte__memory_addr__COMMA__s_byte_num', 'KB, (0, d.m, 0), C, (0, s.imm as u8 as i8, 0)', 'yes'),
+ ('mi16', 16, 'opnd_mem', 'src_imm_s16', 'T_word__memory_addr__COMMA__s_word_num', 'KW, (0, d.m, 0), C, (0, s.imm as i16, 0)', 'yes'),
+ ('li8', 8, 'opnd_lab', 'src_imm_s8', 'byte_label__COMMA__s_byte_num', '(0, d.m, 0), C, (0, s.imm as u8 as i8, 0)', 'yes'),
+ ('li16', 16, 'opnd_lab', 'src_imm_s16', 'word_label__COMMA__s_word_num', '(0, d.m, 0), C, (0, s.imm as i16, 0)', 'yes'),
+ ('sr', 16, 'dst_seg', 'src_reg16', 'seg_reg__COMMA__word_reg', '(0, d.w, 0), C, (0, s.w, 0)', 'no'),
+ ('rs', 16, 'dst_reg16', 'src_seg', 'word_reg__COMMA__seg_reg', '(0, d.w, 0), C, (0, s.w, 0)', 'no'),
+ ('ms', 16, 'opnd_mem', 'src_seg', 'T_word__memory_addr__COMMA__seg_reg', 'KW, (0, d.m, 0), C, (0, s.w, 0)', 'yes'),
+ ('ls', 16, 'opnd_lab', 'src_seg', 'word_label__COMMA__seg_reg', '(0, d.m, 0), C, (0, s.w, 0)', 'yes'),
+ ('sm', 16, 'dst_seg', 'opnd_mem', 'seg_reg__COMMA__T_word__memory_addr', '(0, d.w, 0), C, KW, (0, s.m, 0)', 'yes'),
+ ('sl', 16, 'dst_seg', 'opnd_lab', 'seg_reg__COMMA__word_label', '(0, d.w, 0), C, (0, s.m, 0)', 'yes'),
+]
+XCHG_FORMS = [
+ ('rr8', 8, 'dst_reg8', 'src_reg8', 'byte_reg__COMMA__byte_reg', '(0, d.b, 0), C, (0, s.b, 0)', 'no'),
+ ('rr16', 16, 'dst_reg16', 'src_reg16', 'word_reg__COMMA__word_reg', '(0, d.w, 0), C, (0, s.w, 0)', 'no'),
+ ('mr8', 8, 'opnd_mem', 'src_reg8', 'T_byte__memory_addr__COMMA__byte_reg', 'KB, (0, d.m, 0), C, (0, s.b, 0)', 'yes'),
+ ('mr16', 16, 'opnd_mem', 'src_reg16', 'T_word__memory_addr__COMMA__word_reg', 'KW, (0, d.m, 0), C, (0, s.w, 0)', 'yes'),
+ ('lr8', 8, 'opnd_lab', 'src_reg8', 'byte_label__COMMA__byte_reg', '(0, d.m, 0), C, (0, s.b, 0)', 'yes'),
+ ('lr16', 16, 'opnd_lab', 'src_reg16', 'word_label__COMMA__word_reg', '(0, d.m, 0), C, (0, s.w, 0)', 'yes'),
+]
+
+
+def movs():
+    out, names = [], []
+    for mac, kw, forms in (('movop', 'mov', MOV_FORMS), ('xchgop', 'xchg', XCHG_FORMS)):
+        for (k, w, mkd, mks, tail, args, probe) in forms:
+            h = 'c05_%s_%s' % (kw, k)
+            out.append('%s!(%s, "C05.%s.%s", %d, %s, %s, %s,\n    |vm: &mut VM, ctx: &mut Context, d: &Op, s: &Op| p_%s__T_%s__%s(CUR, vm, ctx, "", (0, "%s", 0), %s));'
+                       % (mac, h, kw, k, w, mkd, mks, probe, kw, kw, tail, kw, args))
+            names.append(h)
+    return out, names
+
+
 def binary(prop, fam, signed):
     out, names = [], []
     lab = prop.upper() + 'b'
@@ -90,4 +181,18 @@ if __name__ == '__main__':
     open(os.path.join(H, 'interp_c03.rs'), 'w').write(
         '// C03 (B-harnesses): the 6 unary_arithmetic productions with MUL/IMUL/DIV/IDIV (divide error -> INT 0).\n' + HDR
         + '\n'.join(u) + '\n\n' + table(un))
+    b, bn = binary('c02', 'logical', False)
+    sh, shn = shifts('c02')
+    n, nn = nots('c02')
+    open(os.path.join(H, 'interp_c02.rs'), 'w').write(
+        '// C02 (B-harnesses): the 16 binary_logical, 12 shift_rotate and 6 not productions.\n'
+        '// Instantiations written by lib/mk_interp_harness.py; the bodies are the macros of interp_ab_ops.rs.\n' + HDR
+        + '\n'.join(b) + '\n\n' + '\n'.join(sh) + '\n\n' + '\n'.join(n) + TWIN % ('c02b', 'C02b') + '\n' + table(bn + shn + nn + ['c02b_twin_reach']))
+    m, mn = movs()
+    hand = open(os.path.join(H, 'interp_c05_hand.rs.in')).read()
+    hand_names = __import__('re').findall(r'pub fn (c05\w+)\(', hand)
+    open(os.path.join(H, 'interp_c05.rs'), 'w').write(
+        '// C05: MOV (22 productions), XCHG (6), PUSH/POP, PUSHF/POPF, LAHF/SAHF, XLAT.\n'
+        '// mov/xchg instantiations written by lib/mk_interp_harness.py; the rest comes from interp_c05_hand.rs.in.\n' + HDR
+        + '\n'.join(m) + '\n\n' + hand + '\n' + table(mn + hand_names))
     print('written')
